@@ -141,6 +141,14 @@ CLAIMS["C11"] = dict(
     technique="Verus loop-invariant proof (three loops, early returns) on the mechanically extracted Game::can_declare_draw with position identity outlined + native witness search for concrete histories",
 )
 
+CLAIMS["C17"] = dict(
+    category="proof",
+    text="Proof by composition. (1) Code-independent lemmas (Kani, all positions and moves): the rules specification commutes with the colour mirror (checkers, pinned, in-check, legality of every move, successor position) and, for positions without castling rights, with the left-right flip. (2) Every code==spec contract of C01-C04 is proved with the colour symbolic, so the library equals the specification for both colours; hence f(mirror x) = spec(mirror x) = mirror(spec x) = mirror(f x). (3) The colour-specific leaves are additionally proved mirror-symmetric directly on the real code and tables: Color rank helpers, uforward/ubackward, pawn attack/push tables, castle constants, reverse_colors, legal_king_move, legal_ep_move, pseudo_legals.",
+    design_ref="DESIGN.md §6 C17",
+    note=TRUST + "inherits every bound and assumption of C01-C04 (piece-loop producers bounded, king-square subsets in the quick tier); symmetry lemma proofs are cached by content hash in the quick tier and re-proved in thorough.",
+    technique="code-independent SAT lemmas that the chess specification commutes with mirror/flip + colour-symbolic code==spec contracts (C01-C04) + direct symmetry contracts on colour-specific leaves",
+)
+
 NOT_YET = {}
 
 
